@@ -703,10 +703,15 @@ def main(tier: str, seed: int) -> int:
                 core.require_ok(rs, "RandVars.tla simulation")
                 if rs.violated:
                     raise core.MachineryError(f"RandVars.tla simulation: {rs.violated}")
-                sim = [dict(c, mode="sim") for tag, c in rs.prints if tag == "CASE"]
+                seen, sim = set(), []
+                for tag, c in rs.prints:  # (the simulator evaluates the invariant more than once per trace)
+                    key = json.dumps(c, sort_keys=True)
+                    if tag == "CASE" and key not in seen:
+                        seen.add(key)
+                        sim.append(dict(c, mode="sim"))
                 rs.out, rs.prints = "", []
                 v.add_coverage(simulated_histories=len(sim), transitions=rs.generated)
-                kinds |= _run_hist(v, tier, rng, sim, f"{SIM_TRACES} random histories of 6 operations, N=5")
+                kinds |= _run_hist(v, tier, rng, sim, f"random histories of 6 operations, N=5 (-simulate num={SIM_TRACES}, distinct ones)")
             need = {"join", "unjoin", "select", "slice", "subs_param", "subs_name", "concat", "concat_badlevel"}
             if not need <= kinds:
                 raise core.MachineryError(f"history cases lack operations {need - kinds} (vacuous)")
